@@ -56,6 +56,9 @@ type Contract struct {
 	StringsExact bool // model the contents of concatenated strings (quantified axioms)
 	Handler  bool // deferred recover handler: recover() yields an arbitrary value
 	RecoverBy string // callee key of the deferred recover handler: runtime panics after its Defer are converted to errors
+	FieldsOf []Clause // under modifies *: struct fields may change only at these objects (other objects of the type are preserved)
+	MapWrites string // predicate every written map must satisfy (write confinement for maps)
+	AtEntry  []GhostStmt // ghost statements run at function entry
 	Preserves []string // heap variables whose pre-existing objects stay unchanged even under modifies *
 	Pure     bool // declared to modify no pre-existing heap location (checked)
 	NoReturn bool
@@ -99,6 +102,7 @@ type Specs struct {
 	Preds     map[string]*Pred     // pkgpath::name and bare name fallback
 	SpecFns   map[string]*SpecFn
 	Axioms    []Axiom
+	GGhosts   map[string]string // package-level ghost variables: "pkgpath.name" -> type
 	GhostFields map[string]string // "pkgpath.Type.field" -> type
 	InitTable []Axiom // per package: checked at the end of the package initialiser only (mutable registries)
 	GlobalInv []Axiom // per package: holds after init, globals it mentions are never written again
@@ -114,7 +118,7 @@ type TableSpec struct {
 }
 
 func newSpecs() *Specs {
-	return &Specs{Contracts: map[string]*Contract{}, Preds: map[string]*Pred{}, SpecFns: map[string]*SpecFn{}, GhostFields: map[string]string{}}
+	return &Specs{Contracts: map[string]*Contract{}, Preds: map[string]*Pred{}, SpecFns: map[string]*SpecFn{}, GhostFields: map[string]string{}, GGhosts: map[string]string{}}
 }
 
 var reImplies = regexp.MustCompile(`==>`)
@@ -361,7 +365,7 @@ func (sp *Specs) loadSpecFile(path, pkgPath string) error {
 			}
 			if word == "functype" {
 				full = "functype:" + key
-				if pkgPath != "" && !strings.Contains(key, "/") {
+				if pkgPath != "" && !strings.Contains(key, "/") && key != "*" {
 					full = "functype:" + pkgPath + "." + key
 				}
 			}
@@ -454,6 +458,14 @@ func (sp *Specs) loadSpecFile(path, pkgPath string) error {
 			cur.Handler = true
 		case "recoverby":
 			cur.RecoverBy = rest
+		case "fieldsof":
+			c, err := parseClause(rest, lineNo)
+			if err != nil {
+				return fail(err)
+			}
+			cur.FieldsOf = append(cur.FieldsOf, c)
+		case "mapwrites":
+			cur.MapWrites = rest
 		case "preserves":
 			cur.Preserves = append(cur.Preserves, strings.Fields(rest)...)
 		case "pure":
@@ -499,6 +511,16 @@ func (sp *Specs) loadSpecFile(path, pkgPath string) error {
 		case "at":
 			// at call <callee>#<n> [after] assert <e> | set <v> = <e>
 			fs := strings.Fields(rest)
+			if len(fs) >= 4 && fs[0] == "entry" && fs[1] == "set" && cur != nil {
+				body := strings.TrimSpace(strings.SplitN(rest, " set ", 2)[1])
+				parts := strings.SplitN(body, "=", 2)
+				c, err := parseClause(parts[1], lineNo)
+				if err != nil {
+					return fail(err)
+				}
+				cur.AtEntry = append(cur.AtEntry, GhostStmt{Kind: "set", Var: strings.TrimSpace(parts[0]), C: c})
+				continue
+			}
 			if len(fs) < 4 || fs[0] != "call" || cur == nil {
 				return fail(fmt.Errorf("bad at directive"))
 			}
@@ -573,6 +595,12 @@ func (sp *Specs) loadSpecFile(path, pkgPath string) error {
 			if _, ok := sp.SpecFns[f.Name]; !ok {
 				sp.SpecFns[f.Name] = f
 			}
+		case "gghost":
+			fs := strings.Fields(rest)
+			if len(fs) != 2 {
+				return fail(fmt.Errorf("gghost name type"))
+			}
+			sp.GGhosts[pkgPath+"."+fs[0]] = fs[1]
 		case "ghostfield":
 			// ghostfield Type.field type
 			fs := strings.Fields(rest)
@@ -641,6 +669,10 @@ func (sp *Specs) resolveLikes() error {
 			c.Props = ft.Props
 		}
 		c.Preserves = append(c.Preserves, ft.Preserves...)
+		if c.MapWrites == "" {
+			c.MapWrites = ft.MapWrites
+		}
+		c.FieldsOf = append(c.FieldsOf, ft.FieldsOf...)
 	}
 	return nil
 }
